@@ -742,3 +742,85 @@ Proof.
   - destruct (ng && (f_up resf || f_down resf) && has_nan res); auto.
     eapply flags_weaken; [|exact R]. unfold fle; simpl; intuition discriminate.
 Qed.
+
+(* ------------------------------------------------------------------ select *)
+
+Lemma ge_refl a : ge_b a a = true. Proof. rewrite ge_le. apply le_refl. Qed.
+Lemma ge_trans a b c : ge_b a b = true -> ge_b b c = true -> ge_b a c = true.
+Proof. rewrite !ge_le. intros H1 H2. eapply le_trans; eauto. Qed.
+
+Section SelectChain.
+  Context {A : Type} (R : A -> A -> bool) (d : A).
+  Hypothesis Rrefl : forall a, R a a = true.
+  Hypothesis Rtrans : forall a b c, R a b = true -> R b c = true -> R a c = true.
+  (** in a chain of a reflexive transitive relation every earlier element is related to every later one *)
+  Lemma chain_nth_le l : chain R l = true ->
+    forall i j, (i <= j)%nat -> (j < length l)%nat -> R (nth i l d) (nth j l d) = true.
+  Proof.
+    induction l as [|a l IH]; intros C i j Hij Hj; simpl in Hj; [lia|].
+    pose proof (chain_tail _ _ _ C) as Ct.
+    destruct i, j; simpl; auto; try lia.
+    - destruct l as [|b l]; [simpl in Hj; lia|].
+      rewrite chain_cons in C. apply andb_prop in C as [C1 _].
+      eapply Rtrans; [exact C1|]. apply (IH Ct 0%nat j); lia.
+    - apply IH; auto; lia.
+  Qed.
+  (** selecting with non-decreasing in-bounds indices keeps the chain ... *)
+  Lemma select_chain_asc l is : chain R l = true -> chain Nat.leb is = true ->
+    Forall (fun i => (i < length l)%nat) is -> chain R (map (fun i => nth i l d) is) = true.
+  Proof.
+    intros C. induction is as [|i is IH]; intros S F; auto.
+    destruct is as [|j is]; auto. inversion F as [|? ? Fi F']; subst. inversion F' as [|? ? Fj _]; subst.
+    rewrite chain_cons in S. apply andb_prop in S as [S1 S2]. apply Nat.leb_le in S1.
+    change (map (fun i => nth i l d) (i :: j :: is)) with (nth i l d :: map (fun i => nth i l d) (j :: is)).
+    change (map (fun i => nth i l d) (j :: is)) with (nth j l d :: map (fun i => nth i l d) is) at 1.
+    rewrite chain_cons. rewrite (chain_nth_le l C i j S1 Fj). simpl.
+    apply IH; auto.
+  Qed.
+  (** ... and with non-increasing indices reverses it *)
+  Lemma select_chain_desc l is : chain R l = true -> chain (fun a b => Nat.leb b a) is = true ->
+    Forall (fun i => (i < length l)%nat) is -> chain (fun x y => R y x) (map (fun i => nth i l d) is) = true.
+  Proof.
+    intros C. induction is as [|i is IH]; intros S F; auto.
+    destruct is as [|j is]; auto. inversion F as [|? ? Fi F']; subst. inversion F' as [|? ? Fj _]; subst.
+    rewrite chain_cons in S. apply andb_prop in S as [S1 S2]. apply Nat.leb_le in S1.
+    change (map (fun i => nth i l d) (i :: j :: is)) with (nth i l d :: map (fun i => nth i l d) (j :: is)).
+    change (map (fun i => nth i l d) (j :: is)) with (nth j l d :: map (fun i => nth i l d) is) at 1.
+    rewrite chain_cons. rewrite (chain_nth_le l C j i S1 Fi). simpl.
+    apply IH; auto.
+  Qed.
+End SelectChain.
+
+(** select's mark rule is truthful: if the result's rows are the rows of [b] at the (in-bounds,
+    hence non-negative: nothing wraps) positions [is], the marks
+    (asc && up || desc && down, asc && down || desc && up) hold of the result.  The hypothesis
+    that the positions ARE the indices is exactly what "all indices non-negative" buys: a
+    negative index is the position row_count + i, which breaks monotonicity. *)
+Theorem select_marks_sound b out fb (is : list nat) d :
+  flags_okb b fb = true ->
+  vrows out = map (fun i => nth i (vrows b) d) is ->
+  Forall (fun i => (i < length (vrows b))%nat) is ->
+  let iu := chain Nat.leb is in
+  let id := chain (fun x y => Nat.leb y x) is in
+  flags_okb out (FL false (iu && f_up fb || id && f_down fb) (iu && f_down fb || id && f_up fb)) = true.
+Proof.
+  intros W R F iu id. apply flags_okb_iff in W. destruct W as (_ & U & D).
+  apply flags_okb_iff. simpl. repeat split; try discriminate; intros H; unfold up_ok, down_ok in *; rewrite R.
+  - apply orb_prop in H as [H|H]; apply andb_prop in H as [H1 H2].
+    + apply (select_chain_asc le_b d le_refl le_trans); auto.
+    + rewrite (chain_ext _ (fun x y => ge_b y x)) by (intros; rewrite ge_le; reflexivity).
+      apply (select_chain_desc ge_b d ge_refl ge_trans); auto.
+  - apply orb_prop in H as [H|H]; apply andb_prop in H as [H1 H2].
+    + apply (select_chain_asc ge_b d ge_refl ge_trans); auto.
+    + rewrite (chain_ext _ (fun x y => le_b y x)) by (intros; apply ge_le).
+      apply (select_chain_desc le_b d le_refl le_trans); auto.
+Qed.
+
+(** the seeded weakening "only the first index is checked for negativity" is refuted in the model:
+    `⊏ [1 0 ¯1] ⍆[30 10 20]` = [20 10 30] would be marked descending *)
+Lemma select_first_index_rule_refuted :
+  let out := VByte [3%nat] [20; 10; 30]%N in
+  wf_shape out = true /\ flags_okb out (FL false false true) = false /\
+  rule_flags true RSelect [MV (VNum [3%nat] [4607182418800017408; 0; 13830554455654793216]%N) fl_none;
+                           MV (VByte [3%nat] [10; 20; 30]%N) (FL false true false)] out = Some fl_none.
+Proof. repeat split; vm_compute; reflexivity. Qed.
